@@ -7,6 +7,7 @@ import (
 	"encoding/json"
 	"errors"
 	"fmt"
+	"runtime"
 	"sync"
 	"sync/atomic"
 	"time"
@@ -68,9 +69,21 @@ type Config struct {
 	WriteThenReadUS int            `json:"writeThenReadUs"`
 	Modes           map[string]int `json:"modes,omitempty"`
 	Injections      []InjSpec      `json:"injections,omitempty"`
+	// Middlewares are registered with conn.Use, in order: pass-through
+	// middlewares that call next(input), pausing PreUS before and PostUS after.
+	Middlewares []MwSpec `json:"middlewares,omitempty"`
 }
 
-type server interface{ ServeJSONSocket() }
+// MwSpec is one pass-through middleware.
+type MwSpec struct {
+	PreUS  int `json:"preUs,omitempty"`
+	PostUS int `json:"postUs,omitempty"`
+}
+
+type server interface {
+	ServeJSONSocket()
+	Use(fn graphql.MiddlewareFunc)
+}
 
 // Session is one running connection with its world, socket, log and yielder.
 type Session struct {
@@ -127,6 +140,21 @@ func StartSession(cfg Config, gen *Gen) *Session {
 		graphql.WithAlwaysSpawnGoroutineFunc(func(context.Context, *graphql.Query) bool { return cfg.AlwaysSpawn }),
 	)
 	var srv server = conn
+	for i := range cfg.Middlewares {
+		m := cfg.Middlewares[i]
+		srv.Use(func(input *graphql.ComputationInput, next graphql.MiddlewareNextFunc) *graphql.ComputationOutput {
+			if m.PreUS > 0 {
+				time.Sleep(time.Duration(m.PreUS) * time.Microsecond)
+			} else {
+				runtime.Gosched()
+			}
+			out := next(input)
+			if m.PostUS > 0 {
+				time.Sleep(time.Duration(m.PostUS) * time.Microsecond)
+			}
+			return out
+		})
+	}
 	go func() {
 		srv.ServeJSONSocket()
 		s.Log.Add(Event{Kind: EvServeReturn})
